@@ -12,8 +12,10 @@ TB_COMMON = [
     "Go harness (harness/*.go): op execution, panic->'panic' mapping, canonicalisation (sorted sets, slots instead of raw ids)",
 ]
 
+THOROUGH_FACTOR = 3   # thorough budgets below are multiplied by this (about 5 min per property on 16 cores)
+
 def _p(profile, quick, thorough, extra=""):
-    return {'quick': [(profile, quick, extra)], 'thorough': [(profile, thorough, "-maxlen 400")]}
+    return {'quick': [(profile, quick, extra)], 'thorough': [(profile, thorough * THOROUGH_FACTOR, "-maxlen 400")]}
 
 def _merge(*bs):
     out = {'quick': [], 'thorough': []}
